@@ -610,6 +610,101 @@ class Unit:
         s, e = it["span"]
         self.stubs.append({"fn": key, "file": f"src/{src.rel}", "sha256": hashlib.sha256(src.data[s:e]).hexdigest()})
 
+    def slice(self, src, it, key, first_rx, last_rx, header, tail="", wrap_return=None, note=None):
+        """E6: a contiguous statement range of a real fn, wrapped in a generated fn whose header
+        (name, parameters = the slice's free variables, return type) is given by the unit.
+        Statement text is copied verbatim with the same catalogued edits as whole functions
+        (E2/E3/E4/E8/E9); `return X` inside the slice becomes `return <wrap_return>(X)`."""
+        spec = self.specs.get(key)
+        if spec is None:
+            spec = FnSpec(key)
+        spec.used = True
+        nodes = it["nodes"]
+        frx, lrx = re.compile(first_rx), re.compile(last_rx)
+        firsts = [n for n in nodes if n["k"] == "stmt" and frx.match(src.text(*n["span"]))]
+        lasts = [n for n in nodes if n["k"] == "stmt" and lrx.match(src.text(*n["span"]))]
+        if len(firsts) != 1 or len(lasts) != 1 or firsts[0]["block"] != lasts[0]["block"]:
+            raise Undecided(f"lost anchor: slice {key}: first matches {len(firsts)}, last matches {len(lasts)} statements")
+        s0, s1 = firsts[0]["span"][0], lasts[0]["span"][1]
+        sub = [n for n in nodes if "span" in n and s0 <= n["span"][0] and n["span"][1] <= s1]
+        fake = {"nodes": sub, "body": [s0, s1], "span": [s0, s1], "sig": None}
+        self._fnctx = key
+        eds = []
+        for a in src.attrs_in(s0, s1):
+            if a["name"].split("::")[-1] in self.E1_DROP:
+                eds.append((a["span"][0], a["span"][1], "", None))
+        if self.drop_async:
+            for n in sub:
+                if n["k"] == "await":
+                    eds.append((n["base_end"], n["span"][1], "", None))
+                    self._log("E2", src, n["span"][0], ".await", "")
+        for n in sub:
+            if n["k"] == "macro" and n["path"].split("::")[-1] == "select":
+                eds += self._select_edits(src, n)
+        for n in sub:
+            cname = None
+            if n["k"] == "mcall" and ("m:" + n["name"]) in self.ghost_callees:
+                cname = "m:" + n["name"]
+            elif n["k"] == "call" and ("c:" + n["path"]) in self.ghost_callees:
+                cname = "c:" + n["path"]
+            if cname is not None and isinstance(self.ghost_callees[cname], tuple):
+                garg, rx = self.ghost_callees[cname]
+                if not re.search(rx, src.text(*n["recv"])):
+                    cname = None
+            if cname is not None:
+                garg = self.ghost_callees[cname]
+                if isinstance(garg, tuple):
+                    garg = garg[0]
+                sep = "" if (n["nargs"] == 0 or n["trailing"]) else ", "
+                eds.append((n["close"], n["close"], sep + garg, None))
+                self._log("E4", src, n["close"], "", garg)
+        if wrap_return:
+            for n in sub:
+                if n["k"] == "return":
+                    txt = src.text(*n["span"])
+                    m = re.match(r"return\s+", txt)
+                    if not m:
+                        raise Undecided(f"slice {key}: bare `return` cannot be wrapped")
+                    a = n["span"][0] + m.end()
+                    eds.append((a, a, wrap_return + "(", None))
+                    eds.append((n["span"][1], n["span"][1], ")", None))
+        # contract
+        self.raw(header)
+        req = self._clauses(spec.requires)
+        ens = self._clauses(spec.ensures)
+        if req:
+            self.raw("\n    requires\n")
+            for c in req:
+                self.raw(f"        {c.text},\n", tag=self._ctag(key, c))
+        if self.canary:
+            cn = f"__canary_{len(self.canary_names)}"
+            self.canary_names.append(cn)
+            ens = ens + [Clause("ensures", "__canary", [], f"!crate::{cn}()", "canary")]
+        if ens:
+            self.raw("\n    ensures\n")
+            for c in ens:
+                self.raw(f"        {c.text},\n", tag=self._ctag(key, c))
+                if c.label != "__canary":
+                    self._register(f"{self.name}::{key}::ensures#{c.label}", "ensures", c.tags, key, c.where)
+        self.raw("{\n")
+        for anchor, c in spec.proofs:
+            pos = self._proof_pos(src, {"nodes": sub, "body": [s0 - 1, s1 + 1], "sig": {"output": None}}, anchor, key)
+            pre = ""
+            if isinstance(pos, tuple):
+                pre, pos = ";", pos[1]
+            body = f"proof {{ {c.text} }}" if c.kind == "proof" else c.text
+            eds.append((pos, pos, f"{pre}\n {body}\n", self._ctag(key, c, "proof")))
+        self._implicit(src, {"nodes": sub, "body": [s0, s1]}, key, spec)
+        self._apply(src, s0, s1, eds)
+        self.raw("\n" + tail + "\n}\n")
+        self._fnctx = None
+        self._log("E6", src, s0, f"statements {src.line_of(s0)}-{src.line_of(s1)} of {key}", header.strip()[:80])
+        self.functions.append({"fn": key, "file": f"src/{src.rel}", "lines": [src.line_of(s0), src.line_of(s1 - 1)],
+                               "sha256": hashlib.sha256(src.data[s0:s1]).hexdigest(), "has_body": True,
+                               "slice": True})
+        if note:
+            self.slice_assumptions.append(note)
+
     def _ctag(self, key, c, sub=None):
         return {"clause": c.label, "kind": c.kind, "tags": c.tags, "fn": key, "sub": sub, "where": c.where}
 
